@@ -32,7 +32,7 @@ pub fn replay_e3(file: &Value, build: impl Fn(&Value) -> Option<Scenario>) -> i3
         4,
         || Default::default(),
     );
-    job.scenario = crate::e3::with_peer_variant(r["params"]["peer_variant"].as_u64().unwrap_or(0) as usize, scn);
+    job.scenario = crate::e3::with_anon_peers(r["params"]["peers_anon"].as_u64().unwrap_or(0) as u8, crate::e3::with_peer_variant(r["params"]["peer_variant"].as_u64().unwrap_or(0) as usize, scn));
     job.initial = choices;
     job.on_blocked = std::sync::Arc::new(|log: Vec<String>| {
         let mut v = zvcore::explore::Verdict::default();
